@@ -279,13 +279,20 @@ func c01Run(c c01Case) vh.Result {
 	if strings.Contains(s, `"Nodes":[{`) {
 		res.Label("node-depth>=2")
 	}
+	for _, l := range c01Registered {
+		for _, nm := range l {
+			if strings.Contains(s, `"Local":"`+nm[1]+`"`) && strings.Contains(s, `"Space":"`+nm[0]+`"`) {
+				res.Label("generic-node-with-a-name-registered-elsewhere")
+			}
+		}
+	}
 	return res
 }
 
 func c01Def(name, root, what string, quick, thorough int) *vh.Def[c01Case] {
 	return vh.Define(&vh.Def[c01Case]{
 		Property: "C01", Name: name,
-		Rule: what + "; values are built by a reflection-guided generator over the library's own Go types (every exported field; strings over all XML-legal code points weighted to < > & quotes, ]]>, white space, non-ASCII, astral; innerxml and element-name fields from their documented alphabets; generic Nodes with explicit namespaces, depth <= 4); oracles: well-formed single root, element/attribute skeleton equal to that of the same value with every text replaced by 'x', value equality field by field after xml.Unmarshal and after stanza.NextPacket on a stream, byte equality of the re-serialised value; non-trivial = some string contains an XML metacharacter, or the value nests at least one extension/payload, or a Node of depth >= 2",
+		Rule: what + "; values are built by a reflection-guided generator over the library's own Go types (every exported field; strings over all XML-legal code points weighted to < > & quotes, ]]>, white space, non-ASCII, astral; innerxml and element-name fields from their documented alphabets; generic Nodes with explicit namespaces, depth <= 4, a fifth of those directly below a stanza named like an extension that is registered for another kind of stanza); oracles: well-formed single root, element/attribute skeleton equal to that of the same value with every text replaced by 'x', value equality field by field after xml.Unmarshal and after stanza.NextPacket on a stream, byte equality of the re-serialised value; non-trivial = some string contains an XML metacharacter, or the value nests at least one extension/payload, or a Node of depth >= 2",
 		Quick:  quick, Thorough: thorough,
 		Gen: genC01Root(root), Run: c01Run,
 	})
@@ -300,9 +307,12 @@ var (
 	c01Err      = c01Def("err", "Err", "Err alone (code 0 or 1-999, type, RFC 6120 condition or arbitrary NCName, text)", 6000, 300000)
 )
 
+// The IQ check runs first: IQs are the stanzas that carry generic nodes, some of them named like extensions that are
+// registered for messages or presences only, and whatever a decoder remembers about a name (the type registry is
+// process-wide) must not change how the stanzas that come later in the same process are decoded.
+func TestC01_iq(t *testing.T)       { c01IQ.Check(t) }
 func TestC01_message(t *testing.T)  { c01Message.Check(t) }
 func TestC01_presence(t *testing.T) { c01Presence.Check(t) }
-func TestC01_iq(t *testing.T)       { c01IQ.Check(t) }
 func TestC01_nonza(t *testing.T)    { c01Nonza.Check(t) }
 func TestC01_node(t *testing.T)     { c01Node.Check(t) }
 func TestC01_err(t *testing.T)      { c01Err.Check(t) }
